@@ -242,11 +242,27 @@ func idList(ids []uint64, sorted bool) Sx {
 	return L(items...)
 }
 
+// dump takes the white-box dump (which does not go through Flatten, so observing neither fills
+// nor repairs the sorted caches) and orders the item sets by nonce.
+func (r *runner) dump() *legacypool.VerifDump {
+	d := r.pool.VerifDump()
+	for _, m := range []map[common.Address]*legacypool.VerifList{d.Pending, d.Queue} {
+		for _, l := range m {
+			sort.SliceStable(l.Items, func(i, j int) bool { return l.Items[i].Nonce() < l.Items[j].Nonce() })
+		}
+	}
+	return d
+}
+
 func (r *runner) listSx(l *legacypool.VerifList) Sx {
 	if l == nil {
 		return L()
 	}
-	return L(idList(r.ids(l.Txs), false), Big(l.TotalCost.ToBig()))
+	cache := L()
+	if l.HasCache {
+		cache = L(idList(r.ids(l.Cache), false))
+	}
+	return L(idList(r.ids(l.Items), false), Big(l.TotalCost.ToBig()), cache)
 }
 
 func queueOrder(d *legacypool.VerifDump, naccts int) []int {
@@ -287,32 +303,32 @@ func (r *runner) oracle(d *legacypool.VerifDump, head *blockSpec, afterCycle boo
 		stNonce, bal := head.nonces[i], new(big.Int).SetUint64(head.bals[i])
 		nonces := map[uint64]bool{}
 		if p := d.Pending[a]; p != nil {
-			if len(p.Txs) == 0 {
+			if len(p.Items) == 0 {
 				r.fail("empty pending list kept for account %d", i)
 			}
-			npending += len(p.Txs)
-			if uint64(len(p.Txs)) > r.cfg.AccountSlots {
+			npending += len(p.Items)
+			if uint64(len(p.Items)) > r.cfg.AccountSlots {
 				allAS = false
 			}
 			tot := new(big.Int)
-			for k, tx := range p.Txs {
+			for k, tx := range p.Items {
 				from, _ := types.Sender(types.LatestSigner(params.TestChainConfig), tx)
 				if from != a {
 					r.fail("pending tx of account %d signed by someone else", i)
 				}
 				if tx.Nonce() != stNonce+uint64(k) {
-					if r.gapKnown[i] && p.Txs[0].Nonce() == stNonce {
+					if r.gapKnown[i] && p.Items[0].Nonce() == stNonce {
 						// interior gap, front nonce = state nonce, after a Reset that lowered the nonce below the
 						// pending txs and whose reinjection left a dropped tx of this account out of the pool
 						r.known[knownGap] = true
 						r.tags["finding_gap"] = true
 						break
 					}
-					r.fail("pending_gapless: account %d pending nonces %v, state nonce %d", i, nonceList(p.Txs), stNonce)
+					r.fail("pending_gapless: account %d pending nonces %v, state nonce %d", i, nonceList(p.Items), stNonce)
 					break
 				}
 			}
-			for _, tx := range p.Txs {
+			for _, tx := range p.Items {
 				if cost(tx).Cmp(bal) > 0 {
 					r.fail("pending_affordable: account %d tx nonce %d costs %v > balance %v", i, tx.Nonce(), cost(tx), bal)
 				}
@@ -345,12 +361,12 @@ func (r *runner) oracle(d *legacypool.VerifDump, head *blockSpec, afterCycle boo
 			}
 		}
 		if q := d.Queue[a]; q != nil {
-			if len(q.Txs) == 0 {
+			if len(q.Items) == 0 {
 				r.fail("empty queue list kept for account %d", i)
 			}
-			nqueued += len(q.Txs)
+			nqueued += len(q.Items)
 			tot := new(big.Int)
-			for _, tx := range q.Txs {
+			for _, tx := range q.Items {
 				from, _ := types.Sender(types.LatestSigner(params.TestChainConfig), tx)
 				if from != a {
 					r.fail("queued tx of account %d signed by someone else", i)
@@ -374,6 +390,8 @@ func (r *runner) oracle(d *legacypool.VerifDump, head *blockSpec, afterCycle boo
 		} else if _, ok := d.Beats[a]; ok {
 			r.fail("heartbeat without queue for account %d", i)
 		}
+		r.cacheOK("pending", i, d.Pending[a])
+		r.cacheOK("queue", i, d.Queue[a])
 		has := d.Pending[a] != nil || d.Queue[a] != nil
 		if has != r.res.held[a] {
 			r.fail("reservation of account %d is %v but it has pooled txs = %v", i, r.res.held[a], has)
@@ -420,11 +438,32 @@ func (r *runner) oracle(d *legacypool.VerifDump, head *blockSpec, afterCycle boo
 	}
 }
 
+// sameListing: the listing handed out by a public path equals the indexed set of the account:
+// same hashes, strictly ascending nonces (hence no duplicate nonce).
+func (r *runner) sameListing(what string, acct int, got types.Transactions, l *legacypool.VerifList) {
+	want := txsOf(l)
+	ok := len(got) == len(want)
+	for i := 0; ok && i < len(got); i++ {
+		ok = got[i].Hash() == want[i].Hash() && (i == 0 || got[i-1].Nonce() < got[i].Nonce())
+	}
+	if !ok {
+		r.fail("listing != index: %s of account %d lists tx ids %v (nonces %v), the pool holds %v (nonces %v)",
+			what, acct, r.ids(got), nonceList(got), r.ids(want), nonceList(want))
+	}
+}
+
+// cacheOK: a non-nil sorted cache must be the nonce-sorted item set (it is what Flatten returns)
+func (r *runner) cacheOK(what string, acct int, l *legacypool.VerifList) {
+	if l != nil && l.HasCache {
+		r.sameListing(what+" sorted cache", acct, l.Cache, l)
+	}
+}
+
 func txsOf(l *legacypool.VerifList) types.Transactions {
 	if l == nil {
 		return nil
 	}
-	return l.Txs
+	return l.Items
 }
 
 func nonceList(txs types.Transactions) []uint64 {
@@ -573,7 +612,7 @@ func run(c Sx) (res Result) {
 			panic("hxlib: empty op")
 		}
 		t0 := time.Now()
-		pre := r.pool.VerifDump()
+		pre := r.dump()
 		var errs []Sx
 		afterCycle := false
 		var bumpTx *types.Transaction
@@ -626,7 +665,7 @@ func run(c Sx) (res Result) {
 				}
 			}
 			for i := 0; i < r.naccts; i++ {
-				if p := pre.Pending[addrs[i]]; p != nil && len(p.Txs) > 0 && nb.nonces[i] < p.Txs[0].Nonce() {
+				if p := pre.Pending[addrs[i]]; p != nil && len(p.Items) > 0 && nb.nonces[i] < p.Items[0].Nonce() {
 					regressed[i] = true
 					r.tags["regress_below_pending"] = true
 				}
@@ -643,16 +682,79 @@ func run(c Sx) (res Result) {
 			}
 			r.pool.SetGasTip(new(big.Int).SetUint64(f[1]))
 			r.tags["settip"] = true
+			// SetGasTip removes in map order, which decides which sorted caches survive: list
+			// everything afterwards so that all caches are filled (mirrored in coq/Run/C41.v)
+			r.pool.Content()
+		case 3, 4, 5, 6:
+			r.tags["read"] = true
 		default:
 			panic("hxlib: unknown op")
 		}
+		// the public listing paths; checked against the index (white-box dump) below
+		var out Sx
+		type listed struct {
+			what string
+			acct int
+			txs  types.Transactions
+			pend bool
+		}
+		var listings []listed
+		switch f[0] {
+		case 3:
+			pend, queued := r.pool.Content()
+			var rows []Sx
+			for i := 0; i < r.naccts; i++ {
+				rows = append(rows, L(idList(r.ids(pend[addrs[i]]), false), idList(r.ids(queued[addrs[i]]), false)))
+				listings = append(listings, listed{"Content pending", i, pend[addrs[i]], true}, listed{"Content queued", i, queued[addrs[i]], false})
+			}
+			out = L(rows...)
+		case 4:
+			if len(f) != 2 || int(f[1]) >= r.naccts {
+				panic("hxlib: bad ContentFrom op")
+			}
+			pend, queued := r.pool.ContentFrom(addrs[f[1]])
+			out = L(idList(r.ids(pend), false), idList(r.ids(queued), false))
+			listings = append(listings, listed{"ContentFrom pending", int(f[1]), pend, true}, listed{"ContentFrom queued", int(f[1]), queued, false})
+		case 5:
+			lazies, _ := r.pool.Pending(txpool.PendingFilter{})
+			var rows []Sx
+			for i := 0; i < r.naccts; i++ {
+				var txs types.Transactions
+				for _, lz := range lazies[addrs[i]] {
+					txs = append(txs, lz.Tx)
+				}
+				rows = append(rows, idList(r.ids(txs), false))
+				listings = append(listings, listed{"Pending", i, txs, true})
+			}
+			out = L(rows...)
+		case 6:
+			np, nq := r.pool.Stats()
+			out = L(I(int64(np)), I(int64(nq)))
+		}
 		nops++
-		d := r.pool.VerifDump()
+		d := r.dump()
+		for _, li := range listings {
+			if li.pend {
+				r.sameListing(li.what, li.acct, li.txs, d.Pending[addrs[li.acct]])
+			} else {
+				r.sameListing(li.what, li.acct, li.txs, d.Queue[addrs[li.acct]])
+			}
+		}
+		if f[0] == 6 {
+			np, nq := 0, 0
+			for i := 0; i < r.naccts; i++ {
+				np += len(txsOf(d.Pending[addrs[i]]))
+				nq += len(txsOf(d.Queue[addrs[i]]))
+			}
+			if a, b := r.pool.Stats(); a != np || b != nq {
+				r.fail("Stats reports %d/%d, the pool holds %d pending / %d queued", a, b, np, nq)
+			}
+		}
 		// may the queue truncation of this op have depended on Go's map iteration order?
 		qa := queueOrder(d, r.naccts)
 		nq, fresh := 0, len(qa) > 0
 		for _, a := range qa {
-			nq += len(d.Queue[addrs[a]].Txs)
+			nq += len(d.Queue[addrs[a]].Items)
 			if d.Beats[addrs[a]].Before(t0) {
 				fresh = false
 			}
@@ -691,7 +793,7 @@ func run(c Sx) (res Result) {
 		}
 		if d.Stales != 0 && nAS >= 2 && uint64(npend+r.naccts) > r.cfg.GlobalSlots {
 			r.pool.VerifReheap()
-			d = r.pool.VerifDump()
+			d = r.dump()
 			r.tags["reheap_norm"] = true
 		}
 		if len(lost) > 0 {
@@ -716,7 +818,10 @@ func run(c Sx) (res Result) {
 		}
 		r.oracle(d, head, afterCycle)
 		r.noteEvents(pre, d)
-		obs = append(obs, L(L(errs...), r.dumpSx(d)))
+		if out == nil {
+			out = L(errs...)
+		}
+		obs = append(obs, L(out, r.dumpSx(d)))
 	}
 	res.Obs = L(obs...)
 	for t := range r.tags {
@@ -779,11 +884,11 @@ func (r *runner) noteEvents(pre, post *legacypool.VerifDump) {
 		postHas[tx.Hash()] = true
 	}
 	for a, l := range pre.Pending {
-		for _, tx := range l.Txs {
+		for _, tx := range l.Items {
 			if !postHas[tx.Hash()] {
 				r.tags["pending_dropped"] = true
 			} else if q := post.Queue[a]; q != nil {
-				for _, qt := range q.Txs {
+				for _, qt := range q.Items {
 					if qt.Hash() == tx.Hash() {
 						r.tags["demoted"] = true
 					}
@@ -792,11 +897,11 @@ func (r *runner) noteEvents(pre, post *legacypool.VerifDump) {
 		}
 	}
 	for a, l := range pre.Queue {
-		for _, tx := range l.Txs {
+		for _, tx := range l.Items {
 			if !postHas[tx.Hash()] {
 				r.tags["queued_dropped"] = true
 			} else if p := post.Pending[a]; p != nil {
-				for _, pt := range p.Txs {
+				for _, pt := range p.Items {
 					if pt.Hash() == tx.Hash() {
 						r.tags["promoted"] = true
 					}
@@ -994,6 +1099,7 @@ func (g *gen) opAdd() {
 		n = r.Range(2, 4)
 	}
 	ids := []Sx{I(0)}
+	replAcct := -1
 	for i := 0; i < n; i++ {
 		a := r.Intn(g.naccts)
 		if g.style == 1 && r.Chance(3, 4) {
@@ -1019,6 +1125,7 @@ func (g *gen) opAdd() {
 				t := g.replacement(cands[r.Intn(len(cands))])
 				g.submit(t)
 				ids = append(ids, U(t.id))
+				replAcct = a
 				continue
 			}
 		}
@@ -1040,7 +1147,101 @@ func (g *gen) opAdd() {
 		g.submit(t)
 		ids = append(ids, U(t.id))
 	}
+	// listings right before and right after a replacement (the sorted caches are then filled)
+	if replAcct >= 0 && r.Chance(3, 4) {
+		g.readOp(replAcct)
+	}
 	g.ops = append(g.ops, L(ids...))
+	if replAcct >= 0 && r.Chance(3, 4) {
+		g.readOp(replAcct)
+	}
+}
+
+// readOp emits one of the public listing calls
+func (g *gen) readOp(a int) {
+	switch x := g.r.Intn(10); {
+	case x < 4:
+		g.ops = append(g.ops, L(I(4), I(int64(a))))
+	case x < 7:
+		g.ops = append(g.ops, L(I(3)))
+	case x < 9:
+		g.ops = append(g.ops, L(I(5)))
+	default:
+		g.ops = append(g.ops, L(I(6)))
+	}
+}
+
+// plainTx is a tx that passes the stateless checks
+func (g *gen) plainTx(a int, nonce uint64) *txSpec {
+	t := g.newTx(a, nonce)
+	t.slots, t.intr = 1, intrinsic(1)
+	t.gas = t.intr
+	if t.tip > t.feecap || t.tip == 0 {
+		t.tip = t.feecap
+	}
+	t.value = uint64(g.r.Intn(1000))
+	return t
+}
+
+// opGappedReplace builds a gapped run of future txs for one account (e.g. nonces n, n+2, n+3),
+// lists the pool, replaces one of them with a sufficient bump, and lists again
+func (g *gen) opGappedReplace(pending bool) {
+	r := g.r
+	a := r.Intn(g.naccts)
+	acc := g.accts[a]
+	next := g.head.nonces[a]
+	for len(acc.byNonce[next]) > 0 {
+		next++
+	}
+	base := next
+	if !pending {
+		base = next + uint64(r.Range(1, 2)) // nothing submitted at `next`: the run stays queued
+	}
+	var run []*txSpec
+	n := base
+	for k := r.Range(3, 5); k > 0; k-- {
+		t := g.plainTx(a, n)
+		g.submit(t)
+		run = append(run, t)
+		g.ops = append(g.ops, L(I(0), U(t.id)))
+		n++
+		if !pending && r.Chance(1, 2) {
+			n += uint64(r.Range(1, 2))
+		}
+		if r.Chance(1, 4) {
+			g.readOp(a)
+		}
+	}
+	for reps := r.Range(1, 2); reps > 0; reps-- {
+		if r.Chance(5, 6) {
+			g.readOp(a)
+		}
+		old := run[r.Intn(len(run))]
+		if r.Chance(2, 3) && len(run) > 1 {
+			old = run[1+r.Intn(len(run)-1)]
+		}
+		thr := func(v uint64) uint64 { return v*(100+g.bump)/100 + 1 }
+		t := g.plainTx(a, old.nonce)
+		delete(g.usedCap, t.feecap)
+		t.feecap, t.tip = thr(old.feecap)+uint64(r.Intn(50)), thr(old.tip)
+		for g.usedCap[t.feecap] {
+			t.feecap++
+		}
+		if t.tip > t.feecap {
+			t.tip = t.feecap
+		}
+		g.usedCap[t.feecap] = true
+		g.submit(t)
+		for i := range run {
+			if run[i] == old {
+				run[i] = t
+			}
+		}
+		g.ops = append(g.ops, L(I(0), U(t.id)))
+		if r.Chance(5, 6) {
+			g.readOp(a)
+		}
+	}
 }
 
 func (g *gen) opReset() {
@@ -1096,9 +1297,15 @@ func genCase(r *Rng, tier string, style int) Sx {
 	}
 	for i := 0; i < nops; i++ {
 		switch x := r.Intn(100); {
-		case x < 72:
+		case x < 60:
 			g.opAdd()
-		case x < 95:
+		case x < 66:
+			g.opGappedReplace(false)
+		case x < 68:
+			g.opGappedReplace(true)
+		case x < 76:
+			g.readOp(r.Intn(g.naccts))
+		case x < 96:
 			g.opReset()
 		default:
 			tip := uint64(r.Range(1, 15))
@@ -1127,7 +1334,7 @@ func genCase(r *Rng, tier string, style int) Sx {
 }
 
 func genAll(r *Rng, tier string, emit func(Sx)) {
-	n := 450
+	n := 320
 	if tier == "thorough" {
 		n = 12000
 	}
@@ -1150,7 +1357,7 @@ func genAll(r *Rng, tier string, emit func(Sx)) {
 func main() {
 	Main(Family{
 		ID: "C41",
-		Rule: "random operation histories (6-28 ops, up to 60 in the thorough tier) over 4-6 accounts with fixed keys on a fake chain (block tree with per-block nonces/balances/gas limit/base fee): Add(sync) of single txs and batches (next, gapped and stale nonces, replacements around the price-bump threshold, multi-slot and oversized txs, low gas, tip above cap, resubmissions), Reset to child / sibling-branch / ancestor / arbitrary blocks (reinjection of dropped txs, nonce and balance changes, lowered gas limit), SetGasTip; limits GlobalSlots 8 AccountSlots 2 GlobalQueue 8 AccountQueue 3 (3/4 of cases) or random small / roomy ones; adversarial styles: one flooding account, replacement-heavy, linear chain. Non-trivial: at least 5 ops executed and at least 3 txs pooled at some point; distinct = distinct case line.",
+		Rule: "random operation histories (6-28 ops, up to 60 in the thorough tier) over 4-6 accounts with fixed keys on a fake chain (block tree with per-block nonces/balances/gas limit/base fee): Add(sync) of single txs and batches (next, gapped and stale nonces, replacements around the price-bump threshold, multi-slot and oversized txs, low gas, tip above cap, resubmissions), Reset to child / sibling-branch / ancestor / arbitrary blocks (reinjection of dropped txs, nonce and balance changes, lowered gas limit), SetGasTip, the public listing calls Content / ContentFrom / Pending / Stats at random points and right before and after replacements (they fill the sorted caches; the white-box dump does not), and a pattern that builds a gapped future run (or a pending run) for one account and replaces a member of it with a sufficient bump between two listings; limits GlobalSlots 8 AccountSlots 2 GlobalQueue 8 AccountQueue 3 (3/4 of cases) or random small / roomy ones; adversarial styles: one flooding account, replacement-heavy, linear chain. Non-trivial: at least 5 ops executed and at least 3 txs pooled at some point; distinct = distinct case line.",
 		Gen: genAll,
 		Run: run,
 	})
